@@ -130,18 +130,21 @@ def make_case(seed, idx, tier):
         "maximize": maximize,
         "factor": rng.choice([0.5, 1.0, 2.0, 3.0, 4.0, 1.5, 0.0]),
         "trunc": trunc,
+        "n_problem_objects": rng.choice([1, 1, 2, 3]),
         "idx": idx,
     }
 
 
-def _cluster(genomes, fits, maximize, factor, trunc):
+def _cluster(genomes, fits, maximize, factor, trunc, n_objs=1):
     from pyhms.core.individual import Individual
     from pyhms.core.problem import FunctionProblem
     from pyhms.utils.clusterization import NearestBetterClustering
 
     d = len(genomes[0])
-    prob = FunctionProblem(lambda x: 0.0, np.array([[-1e9, 1e9]] * d), maximize)
-    inds = [Individual(np.array(g, dtype=np.float64), prob, float(f)) for g, f in zip(genomes, fits)]
+    # `n_objs` problem objects that are equal in value but distinct objects (individuals gathered from several demes, as
+    # in tree.all_individuals, each hold their own deme's wrapper)
+    probs = [FunctionProblem(lambda x: 0.0, np.array([[-1e9, 1e9]] * d), maximize) for _ in range(max(1, n_objs))]
+    inds = [Individual(np.array(g, dtype=np.float64), probs[k % len(probs)], float(f)) for k, (g, f) in enumerate(zip(genomes, fits))]
     nbc = NearestBetterClustering(inds, factor, trunc)
     import warnings
 
@@ -225,7 +228,9 @@ def run_case(desc):
     if K == 1:
         cov["K_equals_1"] += 1
     try:
-        got, dists = _cluster(genomes, fits, maximize, factor, trunc)
+        n_objs = desc.get("n_problem_objects", 1)
+        cov[f"problem_objects.{min(n_objs, 3)}"] += 1
+        got, dists = _cluster(genomes, fits, maximize, factor, trunc, n_objs)
     except Exception as e:
         viol("clustering raised an exception", error=repr(e)[:200])
         return {"violations": violations, "cov": cov, "nontrivial": [], "sample": None}
